@@ -404,6 +404,10 @@ Definition check (c : sx) : verdict :=
       if Z.eqb ver 1 || Z.eqb ver 2 then check_stream ver thrArg cipher pkts chunks obs else VBad
   | SList [SList [SInt 5%Z; SInt thrArg; SInt cipher; SInt _; pk; SList _]; SList obs] =>
       check_reencode thrArg cipher pk obs
+  | SList [SList [SInt 7%Z; SInt _; SInt _; SInt _; SInt _; SInt _; _]; SList [SInt code; SBytes _]] =>
+      (* usage variants evaluated by the harness on the implementation: 0 fine, 4 the caller's
+         data outside the body was touched, otherwise the round-trip sentence *)
+      if Z.eqb code 0 then VOk else if Z.eqb code 4 then VPropFail 4 else VPropFail 6
   | SList [SList [SInt 8%Z; SInt ver; SInt thrArg; SInt cipher; SInt _; pk; SInt k]; SList obs] =>
       if Z.eqb ver 1 || Z.eqb ver 2 then check_failing ver thrArg cipher pk (Z.to_N k) obs else VBad
   | SList [SList [SInt 9%Z; data; SInt k]; SList obs] => check_failing_len data (Z.to_N k) obs
